@@ -85,8 +85,25 @@ def gen_history(rnd):
             depth -= lv
         elif k in (7, 8):
             ops.append(("solve",))
-        elif k == 9:
-            ops.append(("get_value", g.term(g.choice([BOOL, BV(2), BV(3)]), 2)))
+        elif k in (9, 14):
+            # mostly a sub-term of what has been asserted (so that its symbols are live), right after a solve
+            from vf.bp import subterms
+            pool = []
+            for o_ in ops:
+                if o_[0] == "assert":
+                    for s_ in subterms(o_[1]):
+                        try:
+                            ts_ = reftype(s_)
+                        except Exception:
+                            continue
+                        if ts_ == BOOL or (isinstance(ts_, tuple) and ts_[0] == "BV"):
+                            pool.append(s_)
+            if rnd.random() < 0.6:
+                ops.append(("solve",))
+            if pool and rnd.random() < 0.7:
+                ops.append(("get_value", rnd.choice(pool)))
+            else:
+                ops.append(("get_value", g.term(g.choice([BOOL, BV(2), BV(3)]), 2)))
         elif k == 10:
             ops.append(("get_model",))
         elif k == 11:
@@ -236,7 +253,24 @@ def check_history(run, ops, shortcut):
                         if not (reffv(b) <= live_syms) or any(t[0] == "Sort" for (_, t) in reffv(b)):
                             continue            # only terms over (non sort-valued) symbols of the live assertions
                         f = pys.build(env, b)
-                        v = with_timeout(20, lambda: solver.get_value(f))
+                        # the value through each of the entry points (a single term, or any iterable of terms)
+                        how = (i + len(ops)) % 6
+                        if how in (0, 1):
+                            v = with_timeout(20, lambda: solver.get_value(f))
+                        elif how == 5:
+                            pv = with_timeout(20, lambda: solver.get_py_values(x_ for x_ in [f]))
+                            v = None
+                            if isinstance(pv, dict) and f in pv:
+                                ft = env.stc.get_type(f)
+                                v = env.formula_manager.Bool(pv[f]) if ft.is_bool_type() else env.formula_manager.BV(pv[f], ft.width)
+                        else:
+                            fs = {2: [f], 3: (f, f), 4: (x_ for x_ in [f])}[how]
+                            vs = with_timeout(20, lambda: solver.get_values(fs))
+                            v = vs.get(f) if isinstance(vs, dict) else None
+                        run.cls("get_value:entry-%d" % how)
+                        if v is None:
+                            fail("value", i, "get_values / get_py_values over an iterable holding %s returned no value for it" % show(b))
+                            return
                         if len(frames) > 1:
                             nontriv = True
                         logged = logged_model([r for r in read_log(log) if r["cmd"] == "(check-sat)"][-1])
